@@ -16,6 +16,7 @@ VARIABLE steps
 mcvars == <<vars, steps>>
 
 OrdC10 == <<"d1", "d2", "d3", "own", "p1">>
+OrdC11 == <<"c1", "c2", "own", "p1", "p2">>
 Charges == {<<0, 1>>, <<1, 3>>, <<1, 1>>}
 
 MkSP(D, b, rw, k, ms, ch, w) ==
